@@ -572,6 +572,27 @@ theorem session_steps_as_written :
     (∀ now s, sessionExpired now s = true ↔ now > s.validUntil) := by
   refine ⟨by decide, by decide, sessionExpired_iff⟩
 
+/-- The key import is one critical section of `apiKeysLock` (regenerated from the source on every run):
+    `updateAPIKeys` takes the lock first and holds it to its end, and only then empties the map, reads
+    the `core/apiKeys` option and stores the parsed keys; `checkAPIKey` looks keys up under the same lock
+    (checked by the extractor). So overlapping imports — every config change event runs the hook in its
+    own goroutine — are serialised in the order of their configuration reads, no request sees a half-built
+    map, and the model's atomic `updateAPIKeys` step (`api_keys_reflect_current_config`,
+    `revoked_key_grants_nothing`) is the code: the import that reads the option last also installs last. -/
+theorem key_import_is_one_critical_section :
+    updateAPIKeysOrder = [.lock, .clear, .readConfig, .install] := by decide
+
+/-- Two configuration changes in a row (in particular two whose imports overlap, see above): what the
+    key map holds afterwards is the import of the second value alone — nothing of the first value
+    survives unless the second value configures it too. -/
+theorem later_config_wins (st : St) (cfgA cfgB : List KeyEntry) (k : Bytes) (kt : KeyToken)
+    (hl : (step (step st (.setKeys cfgA)) (.setKeys cfgB)).keys.lookup k = some kt) :
+    ∃ e ∈ cfgB, ∃ n, parseKey n e = .ok k kt := by
+  have hinv : KeysInv (step (step st (.setKeys cfgA)) (.setKeys cfgB)) := updateAPIKeys_inv _
+  obtain ⟨e, he, n, hp⟩ := hinv k kt hl
+  have hsub := updateAPIKeys_cfg_subset { step st (.setKeys cfgA) with cfg := cfgB } e he
+  exact ⟨e, hsub, n, hp⟩
+
 /-- How a session dies (`SessionDead st id`: the id has been handed out and the session map holds no live
     session under it): by auth/reset; by being unknown to the map although the id was handed out (reset or
     cleaned earlier); or — in every state reachable from the initial one, where ids are unique — by being
